@@ -32,6 +32,9 @@ site: http://bugseng.com/products/ppl/ . */
 #include <iostream>
 #include <stdexcept>
 #include <deque>
+#ifdef BUGSENG_PPL_VERIF
+#include "verif_hooks.hh"
+#endif
 
 namespace PPL = Parma_Polyhedra_Library;
 
@@ -163,6 +166,9 @@ PPL::Polyhedron
 
 void
 PPL::Polyhedron::H79_widening_assign(const Polyhedron& y, unsigned* tp) {
+#ifdef BUGSENG_PPL_VERIF
+  PPL_VERIF_REACH(H79_WIDENING);
+#endif
   Polyhedron& x = *this;
   // Topology compatibility check.
   const Topology topol = x.topology();
@@ -742,6 +748,9 @@ PPL::Polyhedron::BHRZ03_evolving_rays(const Polyhedron& y,
 
 void
 PPL::Polyhedron::BHRZ03_widening_assign(const Polyhedron& y, unsigned* tp) {
+#ifdef BUGSENG_PPL_VERIF
+  PPL_VERIF_REACH(BHRZ03_WIDENING);
+#endif
   Polyhedron& x = *this;
   // Topology compatibility check.
   if (x.topology() != y.topology()) {
@@ -810,24 +819,36 @@ PPL::Polyhedron::BHRZ03_widening_assign(const Polyhedron& y, unsigned* tp) {
   // NOTE: none of the following widening heuristics is intrusive:
   // they will modify `x' only when returning successfully.
   if (x.BHRZ03_combining_constraints(y, y_cert, H79, x_minus_H79_cs)) {
+#ifdef BUGSENG_PPL_VERIF
+    PPL_VERIF_REACH(BHRZ03_COMBINING_OK);
+#endif
     return;
   }
 
   PPL_ASSERT_HEAVY(H79.OK() && x.OK() && y.OK());
 
   if (x.BHRZ03_evolving_points(y, y_cert, H79)) {
+#ifdef BUGSENG_PPL_VERIF
+    PPL_VERIF_REACH(BHRZ03_EVOLVING_POINTS_OK);
+#endif
     return;
   }
 
   PPL_ASSERT_HEAVY(H79.OK() && x.OK() && y.OK());
 
   if (x.BHRZ03_evolving_rays(y, y_cert, H79)) {
+#ifdef BUGSENG_PPL_VERIF
+    PPL_VERIF_REACH(BHRZ03_EVOLVING_RAYS_OK);
+#endif
     return;
   }
 
   PPL_ASSERT_HEAVY(H79.OK() && x.OK() && y.OK());
 
   // No previous technique was successful: fall back to the H79 widening.
+#ifdef BUGSENG_PPL_VERIF
+  PPL_VERIF_REACH(BHRZ03_FALLBACK_H79);
+#endif
   x.m_swap(H79);
   PPL_ASSERT_HEAVY(x.OK(true));
 
